@@ -2,6 +2,11 @@ package tlsx
 
 import (
 	"bytes"
+	"crypto/aes"
+	"crypto/cipher"
+	"crypto/des"
+	"crypto/hmac"
+	"crypto/sha1"
 	"fmt"
 	"testing"
 
@@ -67,7 +72,7 @@ func tail(b []byte, n int) []byte {
 }
 
 func TestC43(t *testing.T) {
-	rec := ev.New("C43", "payloads: exhaustive for len<=2 (len 3 in thorough); generated: random bytes, constructed valid paddings of every p in 0..255 behind random prefixes, and every single-byte corruption position of the padding window incl. the farthest byte. non-trivial: p+1 within {len-1,len,len+1} or a corrupted valid padding; distinct by payload bytes")
+	rec := ev.New("C43", "payloads: exhaustive for len<=2 (len 3 in thorough); generated: random bytes, constructed valid paddings of every p in 0..255 behind random prefixes, and every single-byte corruption position of the padding window incl. the farthest byte. plus records protected by the harness (HMAC-SHA1 then CBC under AES-128/AES-256/3DES, TLS 1.0/1.1/1.2, padding of 1..256 bytes incl. more than one block, one padding byte or the length byte corrupted) handed to the record layer's decrypt. non-trivial: p+1 within {len-1,len,len+1}, a corrupted valid padding, or a record whose padding is corrupted or longer than a block; distinct by payload bytes")
 	// exhaustive part
 	maxLen := ev.N(2, 3)
 	var enum func(prefix []byte, n int)
@@ -108,7 +113,11 @@ func TestC43(t *testing.T) {
 		}
 	}
 	rapid.Check(t, func(rt *rapid.T) {
-		kind := rapid.IntRange(0, 3).Draw(rt, "kind")
+		kind := rapid.IntRange(0, 5).Draw(rt, "kind")
+		if kind >= 4 {
+			c43Record(rt, rec)
+			return
+		}
 		switch kind {
 		case 0:
 			b := rapid.SliceOfN(rapid.Byte(), 0, 600).Draw(rt, "payload")
@@ -141,4 +150,108 @@ func TestC43(t *testing.T) {
 			c43Check(rt, rec, b, class)
 		}
 	})
+}
+
+// ---- record-layer part: the same property observed where TLS uses it. One record is
+// protected by the harness (std crypto: HMAC-SHA1, then CBC with generated padding bytes)
+// and handed to bfe's halfConn.decrypt keyed for the same suite and version.
+
+type c43Suite struct {
+	id        uint16
+	name      string
+	keyLen    int
+	blockSize int
+}
+
+var c43Suites = []c43Suite{{0x002f, "AES128-CBC-SHA", 16, 16}, {0x0035, "AES256-CBC-SHA", 32, 16}, {0x000a, "3DES-CBC-SHA", 24, 8}}
+
+func c43Record(rt *rapid.T, rec *ev.Rec) {
+	su := rapid.SampledFrom(c43Suites).Draw(rt, "suite")
+	version := rapid.SampledFrom([]uint16{0x0301, 0x0302, 0x0303}).Draw(rt, "version")
+	key := rapid.SliceOfN(rapid.Byte(), su.keyLen, su.keyLen).Draw(rt, "key")
+	iv := rapid.SliceOfN(rapid.Byte(), su.blockSize, su.blockSize).Draw(rt, "iv")
+	macKey := rapid.SliceOfN(rapid.Byte(), 20, 20).Draw(rt, "mackey")
+	var seq [8]byte
+	seq[7] = byte(rapid.IntRange(0, 255).Draw(rt, "seq"))
+	data := rapid.SliceOfN(rapid.Byte(), 0, 80).Draw(rt, "data")
+	// MAC over seq || type,version,len || data (RFC 5246 6.2.3.1)
+	hdr := []byte{23, byte(version >> 8), byte(version), byte(len(data) >> 8), byte(len(data))}
+	h := hmac.New(sha1.New, macKey)
+	h.Write(seq[:])
+	h.Write(hdr)
+	h.Write(data)
+	plain := append(append([]byte(nil), data...), h.Sum(nil)...)
+	// padding: minimal length to reach the block size plus k extra blocks (up to 255)
+	minPad := su.blockSize - 1 - len(plain)%su.blockSize
+	maxK := (255 - minPad) / su.blockSize
+	k := rapid.IntRange(0, maxK).Draw(rt, "extra-blocks")
+	if rapid.Bool().Draw(rt, "minimal") {
+		k = 0
+	}
+	p := minPad + k*su.blockSize
+	pad := bytes.Repeat([]byte{byte(p)}, p+1)
+	class := "valid"
+	switch rapid.IntRange(0, 3).Draw(rt, "corruption") {
+	case 1:
+		if p > 0 {
+			off := rapid.IntRange(0, p-1).Draw(rt, "corrupt-off") // not the length byte
+			pad[off] ^= byte(rapid.IntRange(1, 255).Draw(rt, "delta"))
+			class = "corrupt"
+			if off == 0 {
+				class = "corrupt-far"
+			}
+		}
+	case 2:
+		// length byte pointing elsewhere (still a multiple of the block size in total)
+		np := rapid.IntRange(0, 255).Draw(rt, "length-byte")
+		if np != p {
+			pad[len(pad)-1] = byte(np)
+			class = "length-byte-changed"
+		}
+	}
+	plain = append(plain, pad...)
+	valid, remove := c43Model(plain)
+	// a "valid" verdict of the model on a changed length byte still fails the MAC later unless the
+	// removal leaves data||MAC intact: the record is good only if exactly our padding is removed
+	wantOK := valid && remove == p+1
+	var blk cipher.Block
+	if su.blockSize == 8 {
+		blk, _ = des.NewTripleDESCipher(key)
+	} else {
+		blk, _ = aes.NewCipher(key)
+	}
+	body := append([]byte(nil), plain...)
+	var wire []byte
+	if version >= 0x0302 {
+		eiv := rapid.SliceOfN(rapid.Byte(), su.blockSize, su.blockSize).Draw(rt, "explicit-iv")
+		cipher.NewCBCEncrypter(blk, eiv).CryptBlocks(body, body)
+		wire = append(append([]byte(nil), eiv...), body...)
+	} else {
+		cipher.NewCBCEncrypter(blk, iv).CryptBlocks(body, body)
+		wire = body
+	}
+	record := append([]byte{23, byte(version >> 8), byte(version), byte(len(wire) >> 8), byte(len(wire))}, wire...)
+	cls := []string{"record:" + class, fmt.Sprintf("record:tls1.%d", version-0x0301), "record:" + su.name}
+	if k > 0 {
+		cls = append(cls, "record:padding-longer-than-one-block")
+	}
+	rec.Case(fmt.Sprintf("rec|%x|%d|%x", version, su.id, plain), class != "valid" || k > 0, cls...)
+	rec.Sample(map[string]any{"kind": "record", "suite": su.name, "version": fmt.Sprintf("%#04x", version), "data_len": len(data), "padding_len_byte": p, "class": class})
+	w := map[string]any{"suite": su.name, "version": fmt.Sprintf("%#04x", version), "data_hex": fmt.Sprintf("%x", data), "padding_hex": fmt.Sprintf("%x", pad), "class": class,
+		"key_hex": fmt.Sprintf("%x", key), "iv_hex": fmt.Sprintf("%x", iv), "mac_key_hex": fmt.Sprintf("%x", macKey), "seq": seq[7], "record_hex": fmt.Sprintf("%x", record)}
+	ok, got := bfe_tls.VerifCBCDecrypt(version, su.id, key, iv, macKey, seq, record)
+	vname := fmt.Sprintf("tls1.%d", version-0x0301)
+	if wantOK && !ok {
+		rec.Fail(rt, "record-valid-padding-rejected/"+vname, w, "%s %s: record with valid padding (p=%d, %d bytes of padding) and correct MAC was rejected", su.name, vname, p, p+1)
+		return
+	}
+	if !wantOK && ok {
+		rec.Fail(rt, "record-invalid-padding-accepted/"+vname, w, "%s %s: record with invalid padding %x (class %s) was accepted", su.name, vname, tail(pad, 8), class)
+		return
+	}
+	if ok {
+		if !bytes.Equal(got, data) {
+			rec.Fail(rt, "record-wrong-removal/"+vname, w, "%s %s: plaintext after padding/MAC removal is %x, want %x", su.name, vname, got, data)
+		}
+	}
 }
